@@ -59,6 +59,7 @@ def check(run, repo, world):
     rx = cmdtable.registries(world, folder)
     mod = repo.mod("dali.address")
     kinds = GEAR_DESTS + DEVICE_DESTS + INSTANCES
+    _frame_api(run, repo, world, mod)
     run.rule("R-ADDR-LOCAL", "add_to_frame changes only the kind's field")
     run.rule("R-ADDR-RT", "from_frame(add_to_frame(x)) == x")
     run.rule("R-KIND", "wrong frame size -> IncompatibleFrame, frame "
@@ -170,7 +171,6 @@ def check(run, repo, world):
                if kind == "GearShort" else None)
     _partition(run, repo, world, rx, folder, mod)
     _equality(run, repo, world, rx, folder, mod, kinds)
-    _frame_api(run, repo, world, mod)
 
 
 def _raised_class(world, modname, r):
@@ -526,3 +526,24 @@ def _frame_api(run, repo, world, mod):
     run.floor("address codec methods examined for their frame reads", n_fns,
               12)
     run.analysed["reads outside Frame's interface"] = n_sites
+    # an address object and the codec keep nothing between calls: a memo of
+    # decoded addresses shared by all frames answers for another frame
+    from ..seq import shared_state_writes
+    run.rule("R-ADDR-PURE", "no method of an address / instance class writes "
+             "to state shared between objects (class-level container, "
+             "module global); registration by the metaclass aside")
+    nm = 0
+    for c in world.classes_in("dali.address"):
+        if any(getattr(b, "name", None) == "type" or b == "type"
+               for b in c.mro) or c.has_ext_base("type"):
+            continue
+        for name, (kind, f) in sorted(c.methods.items()):
+            nm += 1
+            bad = shared_state_writes(world, c, f)
+            run.ob("R-ADDR-PURE", "%s.%s" % (c.qname, name), not bad,
+                   "%s.%s writes to state shared between address objects "
+                   "(%s): what one frame decodes to then depends on the "
+                   "frames decoded before it" % (c.qname, name,
+                                                 "; ".join(bad[:3])),
+                   where(mod, f))
+    run.floor("address class methods examined for shared writes", nm, 40)
